@@ -4,6 +4,7 @@ import (
 	"encoding/json"
 	"fmt"
 	"os"
+	"reflect"
 	"path/filepath"
 	"runtime/debug"
 	"sort"
@@ -46,7 +47,7 @@ func (c *Ctx) check(cond bool, rule, construct string, at ssa.Instruction, forma
 }
 
 func (c *Ctx) posOf(at ssa.Instruction) string {
-	if at == nil {
+	if at == nil || reflect.ValueOf(at).IsNil() {
 		return "-"
 	}
 	if p := at.Pos(); p.IsValid() {
